@@ -18,7 +18,6 @@ import (
 	"github.com/lianxiangcloud/linkchain/types"
 )
 
-
 func runCacheDerivations(r *vk.Run) int {
 	to := addrX
 	type kindD struct {
@@ -39,7 +38,9 @@ func runCacheDerivations(r *vk.Run) int {
 				return tx.(*types.Transaction).Sign(s, keyB)
 			}
 			return tx.(*types.Transaction).Sign(s, keyA)
-		}, func(tx types.Tx, sig []byte) (types.Tx, error) { return tx.(*types.Transaction).WithSignature(types.GlobalSTDSigner, sig) }, decodeTx},
+		}, func(tx types.Tx, sig []byte) (types.Tx, error) {
+			return tx.(*types.Transaction).WithSignature(types.GlobalSTDSigner, sig)
+		}, decodeTx},
 		{"TokenTransaction", func() types.Tx {
 			tx := types.NewTokenTransaction(addrTok, 7, to, e18(5), 0, nil, nil)
 			tx.Sign(types.GlobalSTDSigner, keyA)
